@@ -29,6 +29,11 @@ BUILT = {
             'real/complex/integer entries and integer dtype, constructor fills) in both modes; judged by an independent dense contraction before/after, '
             'isometry of every site tensor, unit norm, bond bounds, sparsity masks, unchanged outer charges and idempotence.',
             'dense reach d^L <= 4096; 1e-11 relative tolerance', '4 (C01)'),
+    'C02': ('Hypothesis-generated operation histories (shrinkable step lists interpreted against a pool of MPS/MPO, JSON-replayable); entry-wise sparsity / list-length invariant after every step',
+            'Exploration: histories of 5..10 (25) steps over a pool of sector-consistent MPS and MPOs of one model family (incl. encoded charge pairs) interleave construction, from_vector, sums, differences, '
+            'products, operator application, chains -> graph -> MPO, orthonormalize, compress, merge + split, TDVP and DMRG (both variants, several tolerances) and zero_qnumbers; after every step every pooled '
+            'object is checked entry-wise with a harness-side mask (not is_qsparse) and list lengths; outer charges must survive in-place steps on non-zero states; any escaping exception is a violation.',
+            'histories are sampled, length <= 25, bonds capped at 40; steps whose documented precondition fails are skipped and counted', '4 (C02)'),
     'C03': ('Hypothesis random search over expression trees and operand families; differential oracle = same expression on independent dense forms',
             'Exploration: generated expression trees (depth <= 3) over MPS/MPO sums, differences, products, operator application and identity, binary '
             'operations with non-zero boundary charges and operator shifts, sparse-vs-dense matrix form, from_vector round trips and merge-after-split; '
@@ -81,6 +86,11 @@ BUILT = {
             'graph polynomial must equal the sum of padded trees / of automaton paths (independent DFS); consistency, length, pruning of dead states; dense forms of chains, trees, '
             'graphs (both directions) and of the converted MPO must equal the polynomial evaluated by Kronecker products.',
             'sampled programs, L <= 6; dense part d^L <= 729', '4 (C17)'),
+    'C19': ('Hypothesis-generated operation histories with byte-level snapshots and numpy.shares_memory; direct-call and graph-input parts with deep structural snapshots',
+            'Exploration: the C02 histories extended by pure queries and by mutations of fresh results; every pooled object except the documented in-place target must be byte-identical after every step, '
+            'fresh results must not share memory with any pooled array, operands must survive mutation of the result; decompositions / Krylov routines / graph and MPO constructors are called directly and '
+            'their arguments (arrays, chains, trees, automata, graphs, operator maps) compared with deep snapshots.',
+            'aliasing through objects the harness does not hold cannot be seen; raw decomposition outputs are not required to be unaliased (the property speaks about returned MPS / MPO / graphs)', '4 (C19)'),
     'C20': ('Hypothesis over (model, L, seed) with three generic parameter draws; SVD-rank oracle with spectral-gap rule; structural bound for chain lists',
             'Exploration: bond dimensions of the chain-, automaton- and optimized-molecular constructions are compared at every cut with the generic operator Schmidt rank '
             '(maximum numerical rank over three independent parameter draws, accepted only with a spectral gap); chain lists: every layer width <= number of distinct non-zero chains; '
